@@ -292,6 +292,27 @@ def search(ctx):
                 if not ok:
                     ctx.violation("C18:crop", "crop (N=%d, centre %r, size %d) does not keep values/coordinates/metadata" % (N, cx, s),
                                   dict(kind="crop", n=N, center=cx, size=s))
+    # ---- rectangular crops: the documented (size_x, size_y) form, centre off the diagonal
+    for j in range(ctx.n(12, 120)):
+        Nx, Ny = int(rng.integers(4, 9)), int(rng.integers(4, 9))
+        im = mk(np.arange(Nx * Ny, dtype=float).reshape(Nx, Ny), spacing=(0.1, 0.25))
+        sx, sy = int(rng.integers(1, Nx)), int(rng.integers(1, Ny))
+        cxr, cyr = int(rng.integers(0, Nx + 1)), int(rng.integers(0, Ny + 1))
+        lox, hix = int(np.round(cxr - sx / 2)), int(np.round(cxr + sx / 2))
+        loy, hiy = int(np.round(cyr - sy / 2)), int(np.round(cyr + sy / 2))
+        if lox < 0 or hix > Nx or hix <= lox or loy < 0 or hiy > Ny or hiy <= loy:
+            continue
+        ctx.tried("crop-rect", (Nx, Ny, sx, sy, cxr, cyr))
+        try:
+            sub = subimage(im, (cxr, cyr), (sx, sy))
+        except Exception as ex:
+            ctx.violation("C18:crop-refused:rectangular", "rectangular crop of a %dx%d image, centre (%d, %d), shape (%d, %d) (windows %d:%d and %d:%d fit inside) raised %r" % (
+                Nx, Ny, cxr, cyr, sx, sy, lox, hix, loy, hiy, ex), dict(kind="crop-rect", shape=[Nx, Ny], center=[cxr, cyr], size=[sx, sy]))
+            continue
+        want = im.values[0][lox:hix, loy:hiy]
+        if not (np.array_equal(sub.values.squeeze(), want.squeeze()) and np.array_equal(sub.x.values, im.x.values[lox:hix]) and np.array_equal(sub.y.values, im.y.values[loy:hiy]) and _attrs_kept(im, sub)):
+            ctx.violation("C18:crop:rectangular", "rectangular crop of a %dx%d image, centre (%d, %d), shape (%d, %d): values / coordinates are not those of the window %d:%d, %d:%d" % (
+                Nx, Ny, cxr, cyr, sx, sy, lox, hix, loy, hiy), dict(kind="crop-rect", shape=[Nx, Ny], center=[cxr, cyr], size=[sx, sy]))
     # ---- centre finder on computed single-sphere holograms
     m = ctx.n(5, 60)
     for i in range(m):
